@@ -50,6 +50,12 @@ Section Memo.
     if is_nil (nb t) then None else if singular (nb t) then None else Some (nb t).
 End Memo.
 
+(* inventory of the variables with static storage duration (gen/Statics.v) *)
+(* SReset = state reset at every entry of the public function (theorem C10_dkrcht_reset); SCarry = local static of the
+   translated-Fortran integration code of mvndst that the syntactic criteria cannot classify: correspondence only *)
+Inductive sclass := SConst | SRng | SOption | SHook | SLocal | SCross | SReset | SCarry | SUnknown.
+Definition sclass_known (c : sclass) : bool := match c with SUnknown => false | _ => true end.
+
 (* (6) one call = its events on scratch cells, each under a path condition; what it observes of them *)
 Fixpoint scratch_obs (e : env) (store : nat -> Z) (val : nat -> Z) (evs : list (pc * sev)) (k : nat) : list Z :=
   match evs with
